@@ -1,6 +1,7 @@
 import Gedcom.Model.Merge
 import Driver.Util
 import Driver.Tree
+import Gedcom.Model.EqualTies
 namespace Driver
 open Gedcom
 
@@ -52,7 +53,7 @@ def handleMerge (cmd : String) (rest : List String) : Option String :=
       | .error => some "err"
       | .panic => some "panic"
       | .outOfFuel => some "oof"
-      | .ok m st => some s!"ok written={b2s (st.writes.any (· < n))} adds={showAdds st.famAdds} {dumpLabelled n [m]}"
+      | .ok m st => some s!"ok written={b2s (st.writes.any (· < n))} adds={showAdds st.famAdds} {dumpLabelled n [m]}{tieMark [l, r] [l, r]}"
     | _ => some "bad-op"
   | "mslice" =>
     -- mslice <eq|always|never> <forest left> <forest right>
@@ -78,7 +79,7 @@ def handleMerge (cmd : String) (rest : List String) : Option String :=
             | .panic => some "panic"
             | .outOfFuel => some "oof"
             | .ok es st =>
-              some s!"ok len={es.length} merged={showMerged es} written={b2s (st.writes.any (· < n))} adds={showAdds st.famAdds} {dumpLabelled n (es.map (·.node))}"
+              some s!"ok len={es.length} merged={showMerged es} written={b2s (st.writes.any (· < n))} adds={showAdds st.famAdds} {dumpLabelled n (es.map (·.node))}{tieMark (l ++ r) (l ++ r)}"
         | _ => some "bad-op"
       | none => some "bad-op"
     | _ => some "bad-op"
